@@ -85,6 +85,36 @@ class SymTime(object):
         return 't%d' % self.e
 
 
+class CoarseTime(object):
+    """Result of int(st_mtime) (or any other truncation) in the code under test: the
+    clock value of event `e` at a coarser granularity.  Order is preserved, distinct
+    values may collapse: c_1 <= c_2 <= ... whatever the clock mode."""
+
+    def __init__(self, engine, e):
+        self.engine = engine
+        self.e = e
+
+    def __ge__(self, other):
+        return self.engine.decide_ge(self.e, other.e, coarse=True)
+
+    def __gt__(self, other):
+        return not self.engine.decide_ge(other.e, self.e, coarse=True)
+
+    def __le__(self, other):
+        return self.engine.decide_ge(other.e, self.e, coarse=True)
+
+    def __lt__(self, other):
+        return not self.engine.decide_ge(self.e, other.e, coarse=True)
+
+    def __eq__(self, other):
+        return self.engine.decide_ge(self.e, other.e, coarse=True) and self.engine.decide_ge(other.e, self.e, coarse=True)
+
+    def __ne__(self, other):
+        return not self.__eq__(other)
+
+    __hash__ = None
+
+
 class StatResult(object):
     def __init__(self, engine, inode):
         self.st_mtime = SymTime(engine, inode.mtime_event)
@@ -258,9 +288,10 @@ class FakeShutil(object):
 class Parse(object):
     """Result of parsing version `version` of the dependency GIR (what GIRParser would build)."""
 
-    def __init__(self, version, by):
+    def __init__(self, version, by, scanner='hash-A'):
         self.version = version
         self.by = by
+        self.scanner = scanner      # version stamp of the scanner process that produced it
 
     def __repr__(self):
         return 'Parse(v%d)' % self.version
@@ -370,6 +401,7 @@ class Engine(object):
         self.solver = z3.Solver()
         self.solver.set('random_seed', z3_seed)
         self.tvars = {0: z3.Int('t0')}
+        self.cvars = {}
         self.queries = 0
         self.solver_s = 0.0
         self.src_versions = []        # (version, first step at which it was current)
@@ -447,11 +479,22 @@ class Engine(object):
         self.depth += 1
         return fr.chosen
 
-    def decide_ge(self, a, b):
+    def c(self, e):
+        """coarse (truncated) clock value of event e"""
+        self.t(e)
+        while len(self.cvars) <= e:
+            k = len(self.cvars)
+            v = z3.Int('c%d' % k)
+            self.cvars[k] = v
+            if k:
+                self.solver.add(self.cvars[k - 1] <= v)
+        return self.cvars[e]
+
+    def decide_ge(self, a, b, coarse=False):
         """Is clock value of event a >= that of event b?  z3 decides feasibility."""
         if a == b:
             return True
-        ta, tb = self.t(a), self.t(b)
+        ta, tb = (self.c(a), self.c(b)) if coarse else (self.t(a), self.t(b))
         t0 = _time.time()
         can_ge = self.solver.check(ta >= tb) == z3.sat
         can_lt = self.solver.check(ta < tb) == z3.sat
@@ -482,7 +525,7 @@ class Engine(object):
         # purges: those orders are observable, so the steps involved do not commute
         if th.in_load:
             foot['r'].update(('src-history', 'purge-history'))
-        if th.kind == 'purge':
+        if th.kind in ('purge', 'vload') and not th.in_load:
             foot['w'].add('purge-history')
         th.pending = foot
         self.main_sem.release()
@@ -508,7 +551,7 @@ class Engine(object):
                 self.same_device = self._decide('device', [True, False])
             for i, (kind, arg) in enumerate(sc['ops']):
                 fn = OPS[kind](self, arg)
-                th = OpThread(self, i, kind, fn, killable=kind in ('store', 'parse_include', 'purge'))
+                th = OpThread(self, i, kind, fn, killable=kind in ('store', 'parse_include', 'purge', 'vload'))
                 self.threads.append(th)
                 th.thread.start()
             # bring every thread to its first scheduling point
@@ -589,7 +632,7 @@ class Engine(object):
             if th.exc is not None:
                 self.violations.append('operation %d (%s) raised %s: %s' % (th.idx, th.kind, type(th.exc).__name__, th.exc))
         for th in self.threads:
-            if th.kind not in ('load', 'parse_include') or th.killed or th.exc is not None:
+            if th.kind not in ('load', 'parse_include', 'vload') or th.killed or th.exc is not None:
                 continue
             res = th.result
             got = res.get('loaded') if isinstance(res, dict) else None
@@ -610,6 +653,9 @@ class Engine(object):
                     'moment of the load (versions: %r)' % (th.idx, lo, hi, got.version, self.src_versions))
             if res.get('after_purge') and got.by == 'initial':
                 self.violations.append('operation %d: entry from before the version change was returned' % th.idx)
+            if res.get('scanner') and got.scanner != res['scanner']:
+                self.violations.append('operation %d: a scanner with version stamp %s was served an entry written by '
+                                       'a scanner with stamp %s' % (th.idx, res['scanner'], got.scanner))
 
 
 def entry_path():
@@ -718,7 +764,23 @@ def op_purge(eng, arg):
     return run
 
 
-OPS = {'load': op_load, 'store': op_store, 'parse_include': op_parse_include, 'modify': op_modify,
+def op_vload(eng, arg):
+    """A scanner of the new version starts (CacheStore(): version check, purge) and loads."""
+    def run(th):
+        from giscanner import cachestore
+        eng.version_of_thread[threading.get_ident()] = 'hash-B'
+        cs = cachestore.CacheStore.__new__(cachestore.CacheStore)
+        cs._directory = CACHE_DIR
+        cs._check_cache_version()
+        first = eng.step_no + 1
+        th.in_load = True
+        data = cs.load(SRC)
+        th.in_load = False
+        return {'loaded': data, 'load_first': first, 'load_last': th.last_step or first, 'scanner': 'hash-B'}
+    return run
+
+
+OPS = {'vload': op_vload, 'load': op_load, 'store': op_store, 'parse_include': op_parse_include, 'modify': op_modify,
        'purge': op_purge}
 
 
@@ -744,7 +806,20 @@ def install(eng):
             return FakeFile(eng, ino, mode, path)
         raise NotImplementedError('open for writing by path')
 
-    repl = {'os': fake_os, 'open': fake_open, 'shutil': FakeShutil(eng), 'tempfile': FakeTempfile(eng),
+    import builtins as _b
+
+    def fake_int(x=0, *a):
+        # int(st_mtime): truncation to a coarser granularity
+        if isinstance(x, SymTime):
+            return CoarseTime(eng, x.e)
+        return _b.int(x, *a)
+
+    def fake_round(x, *a):
+        if isinstance(x, SymTime):
+            return CoarseTime(eng, x.e)
+        return _b.round(x, *a)
+
+    repl = {'os': fake_os, 'open': fake_open, 'int': fake_int, 'round': fake_round, 'shutil': FakeShutil(eng), 'tempfile': FakeTempfile(eng),
             'pickle': FakePickle(eng),
             '_get_versionhash': lambda: eng.version_of_thread.get(threading.get_ident(), 'hash-A')}
     for k, v in repl.items():
